@@ -1,0 +1,91 @@
+//go:build verif
+
+// Copyright Istio Authors
+//
+// Licensed under the Apache License, Version 2.0 (the "License");
+// you may not use this file except in compliance with the License.
+// You may obtain a copy of the License at
+//
+//     http://www.apache.org/licenses/LICENSE-2.0
+//
+// Unless required by applicable law or agreed to in writing, software
+// distributed under the License is distributed on an "AS IS" BASIS,
+// WITHOUT WARRANTIES OR CONDITIONS OF ANY KIND, either express or implied.
+// See the License for the specific language governing permissions and
+// limitations under the License.
+
+package ca
+
+import (
+	"crypto/x509"
+	"time"
+
+	"istio.io/istio/pkg/verif"
+)
+
+// ---------------------------------------------------------------------------------------------
+// C09: what the CA hands to certificate generation
+// ---------------------------------------------------------------------------------------------
+
+// from the statement: "nothing in the CSR or request metadata can add, replace or alter an identity.
+// The certificate ... binds the CSR's public key, is valid no longer than the configured maximum".
+// Checked at the one place where IstioCA.sign hands over to certificate generation: the identities are
+// the caller's list itself, the key is the CSR's, the CA flag is the requested one, and the lifetime is
+// the requested one (the default when none is requested), never above the maximum when it is checked.
+//
+//verif:call-assert (*IstioCA).sign GenCertFromCSR 0
+func caGenerationGetsWhatWasAsked(arg0 *x509.CertificateRequest, arg2 any, arg4 []string, arg5 time.Duration, arg6 bool,
+	ca *IstioCA, subjectIDs []string, requestedLifetime time.Duration, checkLifetime, forCA bool,
+) bool {
+	return verif.Same(arg4, subjectIDs) && arg6 == forCA && arg0 != nil && arg2 == arg0.PublicKey &&
+		(requestedLifetime <= 0 || arg5 == requestedLifetime) &&
+		(requestedLifetime > 0 || arg5 == ca.defaultCertTTL) &&
+		(!checkLifetime || requestedLifetime <= 0 || arg5 <= ca.maxCertTTL)
+}
+
+//verif:contract (*IstioCA).sign
+//verif:prop C09
+//verif:nosafety
+func ctIstioCASign(ca *IstioCA, csrPEM []byte, subjectIDs []string, requestedLifetime time.Duration, checkLifetime, forCA bool) {
+	verif.Requires("ca-configured", ca != nil && ca.keyCertBundle != nil)
+	cert, err := ca.sign(csrPEM, subjectIDs, requestedLifetime, checkLifetime, forCA)
+	verif.Ensures("no-certificate-with-an-error", err == nil || cert == nil)
+}
+
+// The exported entry points pass the caller's options through unchanged and always check the lifetime.
+//
+//verif:call-assert (*IstioCA).Sign sign 0
+func caSignPassesOptions(arg2 []string, arg3 time.Duration, arg4, arg5 bool, certOpts CertOpts) bool {
+	return verif.Same(arg2, certOpts.SubjectIDs) && arg3 == certOpts.TTL && arg4 && arg5 == certOpts.ForCA
+}
+
+//verif:contract (*IstioCA).Sign
+//verif:prop C09
+//verif:nosafety
+func ctIstioCASignExported(ca *IstioCA, csrPEM []byte, certOpts CertOpts) {
+	verif.Requires("ca-configured", ca != nil && ca.keyCertBundle != nil)
+	cert, err := ca.Sign(csrPEM, certOpts)
+	verif.Ensures("no-certificate-with-an-error", err == nil || cert == nil)
+}
+
+//verif:call-assert (*IstioCA).SignWithCertChain signWithCertChain 0
+func caSignWithCertChainPassesOptions(arg2 []string, arg3 time.Duration, arg4, arg5 bool, certOpts CertOpts) bool {
+	return verif.Same(arg2, certOpts.SubjectIDs) && arg3 == certOpts.TTL && arg4 && arg5 == certOpts.ForCA
+}
+
+//verif:call-assert (*IstioCA).signWithCertChain sign 0
+func caSignWithCertChainInnerPassesOptions(arg2 []string, arg3 time.Duration, arg4, arg5 bool,
+	subjectIDs []string, requestedLifetime time.Duration, lifetimeCheck, forCA bool,
+) bool {
+	return verif.Same(arg2, subjectIDs) && arg3 == requestedLifetime && arg4 == lifetimeCheck && arg5 == forCA
+}
+
+//verif:contract (*IstioCA).SignWithCertChain
+//verif:prop C09
+//verif:nosafety
+//verif:inline-target (*IstioCA).signWithCertChain
+func ctIstioCASignWithCertChainExported(ca *IstioCA, csrPEM []byte, certOpts CertOpts) {
+	verif.Requires("ca-configured", ca != nil && ca.keyCertBundle != nil)
+	chain, err := ca.SignWithCertChain(csrPEM, certOpts)
+	verif.Ensures("no-certificate-with-an-error", err == nil || chain == nil)
+}
